@@ -17,6 +17,16 @@ UUID_LHS = bytes(range(16)) + b"\x01\x00"
 
 
 def _wf_params(tier):
+    out = _wf_base(tier)
+    for d in out:
+        d["canon"] = False
+    # the canonical ncacn_ip_tcp tower (5 floors, TCP floor fourth) listed AFTER the other towers
+    out += [dict(n=n, r=r, tcp=t, canon=True) for n, r, t in ([(1, 0, 0), (1, 3, -1), (2, 5, 1), (2, 2, 0)] if tier == "quick" else
+                                                              [(n, r, t) for n in (1, 2) for r in (0, 3, 5) for t in range(-1, n)])]
+    return out
+
+
+def _wf_base(tier):
     out = [dict(n=0, r=0, tcp=-1)]
     for n in ([1, 2, 3] if tier == "quick" else [1, 2, 3, 4]):
         for r in range(8):
@@ -30,9 +40,9 @@ def _wf_params(tier):
 
 @harness(P, params=_wf_params, max_steps=100000,
          bounds="well-formed replies with 0..3 (quick) / 0..4 (thorough) towers; every tower = [floor with symbolic protocol id and r-byte symbolic RHS (r = 0..7, so "
-         "every tower length residue mod 8), optional TCP floor with symbolic port in tower `tcp`, UUID floor]; status symbolic 32-bit; entry handle symbolic",
+         "every tower length residue mod 8), optional TCP floor with symbolic port in tower `tcp`, UUID floor]; status symbolic 32-bit; entry handle symbolic; optionally followed by the canonical 5-floor ncacn_ip_tcp tower with its own symbolic port",
          outside="more towers; floors of known protocols with malformed payloads", must_reach=("port of the first tower with a TCP floor", "towers decoded"))
-def wellformed(c, n, r, tcp):
+def wellformed(c, n, r, tcp, canon):
     status = c.int("status", 0, (1 << 32) - 1)
     handle = c.bytes("handle", 20)
     towers, expect = [], []
@@ -49,9 +59,16 @@ def wellformed(c, n, r, tcp):
             expect.append((True, port))
         floors.append(refs.ref_floor(0x0D, UUID_LHS, b"\x00\x00"))
         towers.append(refs.ref_tower(floors))
+    if canon:
+        port2 = c.int("port_canonical", 0, 65535)
+        p2 = (V.SymBytes(list(V.seq_items(port2.to_bytes(2, "big")))).norm() if not isinstance(port2, int) else port2.to_bytes(2, "big"))
+        towers.append(refs.ref_tower([refs.ref_floor(0x0D, UUID_LHS, b"\x00\x00"), refs.ref_floor(0x0D, bytes(range(16, 32)) + b"\x01\x00", b"\x00\x00"), refs.ref_floor(0x0B, b"", b"\x00\x00"),
+                                      refs.ref_floor(7, b"", p2), refs.ref_floor(9, b"", bytes(4))]))
+        expect.append((True, port2))
     buf = refs.ref_ept_map_result(handle, towers, status)
     res = c.call(_epm.EptMapResult.unpack, buf)
-    c.check(all_of([len(res.towers) == n, res.status == status] + [len(t) == (3 if i == tcp else 2) for i, t in enumerate(res.towers)]), "towers decoded")
+    c.check(all_of([len(res.towers) == n + (1 if canon else 0), res.status == status] + [len(t) == (3 if i == tcp else 2) for i, t in enumerate(res.towers[:n])] +
+                   ([len(res.towers[n]) == 5] if canon and len(res.towers) > n else [])), "towers decoded")
     has_tcp = any_of([e[0] for e in expect])
     want = 0
     for is_tcp, p in reversed(expect):
